@@ -642,13 +642,136 @@ theorem kill_beginningOfLine_cursor (lb l : LB) (r : Bool) (ns : List Notif) (h 
     simp at hm
     obtain ⟨_, rfl, _⟩ := hm; rfl
 
-/-- the movements for which "text unchanged ⇒ cursor unchanged" is proved -/
-def CharOrWord : Movement → Prop
-  | .forwardChar _ | .backwardChar _ | .forwardWord _ _ _ | .backwardWord _ _
-  | .endOfLine | .beginningOfLine | .endOfBuffer | .beginningOfBuffer | .wholeLine => True
-  | _ => False
+theorem mid_nil_of_same {x y z b : Text} (hbuf : b = x ++ y ++ z) (hb : x ++ z = b) : blen y = 0 := by
+  have : blen (x ++ z) = blen (x ++ y ++ z) := by rw [hb, hbuf]
+  simp at this; omega
 
-theorem kill_nothing_keeps_cursor (m : Movement) (hm : CharOrWord m) (lb l : LB) (r : Bool) (ns : List Notif)
+theorem kill_charSearch_cursor (lb l : LB) (n : Nat) (cs : CharSearch) (r : Bool) (ns : List Notif) (h : WF lb)
+    (hk : LB.kill S U (.viCharSearch n cs) lb = .ok (r, l, ns)) (hb : l.buf = lb.buf) : l.pos = lb.pos := by
+  obtain ⟨ns0, hd, _⟩ := cs_kill_run hk
+  rcases cs_deleteTo_eval S U lb cs n h with ⟨_, he⟩ | ⟨p, x, y, z, d, _, hbuf, hx, hy, he⟩
+  · rw [he] at hd; cases hd; rfl
+  · rw [he] at hd; cases hd
+    simp only at hb ⊢
+    have hy0 := mid_nil_of_same hbuf hb
+    cases cs <;> simp only [cs_iv] at hx hy <;> omega
+
+theorem kill_viFirstPrint_cursor (lb l : LB) (r : Bool) (ns : List Notif) (h : WF lb)
+    (hrun : LB.kill S U .viFirstPrint lb = .ok (r, l, ns)) (hb : l.buf = lb.buf) : l.pos = lb.pos := by
+  obtain ⟨fp, ht, hf⟩ := firstPrint_eq_target S U lb h
+  obtain ⟨p', hp', hpb⟩ := firstPrint_ok S U lb h
+  rw [hf] at hp'; cases hp'
+  by_cases h1 : fp < lb.pos
+  · obtain ⟨x, y, z, hd, hbuf, hx, hy⟩ := drain_ok .backward hpb h (by omega)
+    have hne : (fp != lb.pos) = true := by simp; omega
+    simp [LB.kill, LM.bind_apply, LM.notify, LM.ro, hf, LM.get, h1, hd, LM.setPos, hne] at hrun
+    obtain ⟨_, rfl, _⟩ := hrun
+    simp only at hb ⊢
+    have := mid_nil_of_same hbuf hb
+    omega
+  · by_cases h2 : lb.pos < fp
+    · obtain ⟨x, y, z, hd, hbuf, hx, hy⟩ := drain_ok .forward h hpb (by omega)
+      have hne : (fp != lb.pos) = true := by simp; omega
+      simp [LB.kill, LM.bind_apply, LM.notify, LM.ro, hf, LM.get, h1, h2, hd, hne] at hrun
+      obtain ⟨_, rfl, _⟩ := hrun
+      rfl
+    · have hne : (fp != lb.pos) = false := by simp; omega
+      simp [LB.kill, LM.bind_apply, LM.notify, LM.ro, hf, LM.get, h1, h2, hne] at hrun
+      obtain ⟨_, rfl, _⟩ := hrun
+      rfl
+
+theorem kill_lineUp_cursor (lb l : LB) (n : Nat) (r : Bool) (ns : List Notif) (h : WF lb)
+    (hrun : LB.kill S U (.lineUp n) lb = .ok (r, l, ns)) (hb : l.buf = lb.buf) : l.pos = lb.pos := by
+  obtain ⟨r0, hr0, hprop⟩ := nLinesUp_ok lb n h
+  obtain ⟨x, s, hbs, hpos⟩ := h.split
+  have hsf : sliceFrom lb.buf lb.pos = .ok s := by rw [hbs, hpos]; exact sliceFrom_mid x s
+  cases r0 with
+  | none =>
+    have hk : LB.kill S U (.lineUp n) lb = .ok (false, lb, [.startKill, .stopKill]) := by
+      simp [LB.kill, LM.bind_apply, LM.notify, LM.ro, hr0]
+    rw [hk] at hrun; cases hrun; rfl
+  | some ab =>
+    obtain ⟨A, B⟩ := ab
+    obtain ⟨hA, hB, hle1, hle2⟩ := hprop _ _ rfl
+    have ha' : IsBoundary lb.buf (if findChar '\n' s = none ∧ 0 < A then A - 1 else A) := by
+      split
+      · exact hA.pred_boundary
+      · exact hA.boundary
+    have hle' : (if findChar '\n' s = none ∧ 0 < A then A - 1 else A) ≤ B := by
+      split <;> omega
+    obtain ⟨x', y, z, d, hsp, hd, hbuf, hx, hy⟩ := ls_drainAround_eval S U _ B lb.pos lb ha' hB h hle'
+    have hk : LB.kill S U (.lineUp n) lb =
+        .ok (true, { lb with buf := x' ++ z, pos := (if findChar '\n' s = none ∧ 0 < A then A - 1 else A) },
+             [.startKill] ++ ([.del (if findChar '\n' s = none ∧ 0 < A then A - 1 else A) y d] ++ [.stopKill])) := by
+      simp [LB.kill, LM.bind_apply, LM.notify, LM.ro, hr0, LM.get, LM.lift, hsf, hsp, hd]
+    rw [hk] at hrun
+    cases hrun
+    simp only at hb ⊢
+    have := mid_nil_of_same hbuf hb
+    have hle3 : (if findChar '\n' s = none ∧ 0 < A then A - 1 else A) ≤ A := by split <;> omega
+    generalize (if findChar '\n' s = none ∧ 0 < A then A - 1 else A) = a' at *
+    omega
+
+theorem kill_lineDown_cursor (lb l : LB) (n : Nat) (r : Bool) (ns : List Notif) (h : WF lb)
+    (hrun : LB.kill S U (.lineDown n) lb = .ok (r, l, ns)) (hb : l.buf = lb.buf) : l.pos = lb.pos := by
+  obtain ⟨r0, hr0, hprop⟩ := nLinesDown_ok lb n h
+  cases r0 with
+  | none =>
+    have hk : LB.kill S U (.lineDown n) lb = .ok (false, lb, [.startKill, .stopKill]) := by
+      simp [LB.kill, LM.bind_apply, LM.notify, LM.ro, hr0]
+    rw [hk] at hrun; cases hrun; rfl
+  | some ab =>
+    obtain ⟨A, B⟩ := ab
+    obtain ⟨hA, hB, hle1, hle2⟩ := hprop _ _ rfl
+    obtain ⟨mid, hsl⟩ := slice_ok hA.boundary hB (by omega)
+    have ha' : IsBoundary lb.buf
+        (if (mid.filter (· == '\n')).length ≤ n ∧ 0 < A then A - 1 else A) := by
+      split
+      · exact hA.pred_boundary
+      · exact hA.boundary
+    have hle'' : (if (mid.filter (· == '\n')).length ≤ n ∧ 0 < A then A - 1 else A) ≤ B := by
+      split <;> omega
+    obtain ⟨x', y, z, d, hsp, hd, hbuf, hx, hy⟩ := ls_drainAround_eval S U _ B lb.pos lb ha' hB h hle''
+    have hk : LB.kill S U (.lineDown n) lb =
+        .ok (true, { lb with buf := x' ++ z,
+                             pos := (if (mid.filter (· == '\n')).length ≤ n ∧ 0 < A then A - 1 else A) },
+             [.startKill] ++ ([.del (if (mid.filter (· == '\n')).length ≤ n ∧ 0 < A then A - 1 else A)
+                y d] ++ [.stopKill])) := by
+      simp [LB.kill, LM.bind_apply, LM.notify, LM.ro, hr0, LM.get, LM.lift, hsl, hsp, hd]
+    rw [hk] at hrun
+    cases hrun
+    simp only at hb ⊢
+    have := mid_nil_of_same hbuf hb
+    split at hx <;> split <;> omega
+
+theorem kill_wholeBuffer_cursor (lb l : LB) (r : Bool) (ns : List Notif) (h : WF lb)
+    (hrun : LB.kill S U .wholeBuffer lb = .ok (r, l, ns)) (hb : l.buf = lb.buf) : l.pos = lb.pos := by
+  obtain ⟨r1, l1, hmv, hl1⟩ := moveBufferStart_refines S U lb
+  unfold MovedTo at hl1
+  simp only [Option.getD_some] at hl1
+  subst hl1
+  by_cases hemp : lb.buf.isEmpty = true
+  · have hnil : lb.buf = [] := by simpa using hemp
+    have hp0 : lb.pos = 0 := by have := h.le_len; simp [LB.len, hnil] at this; exact this
+    simp [LB.kill, LM.bind_apply, LM.notify, LM.get, hmv, hnil] at hrun
+    obtain ⟨_, rfl, _⟩ := hrun
+    exact hp0.symm
+  · obtain ⟨x, y, z, d, hd, hbuf, hx, hy⟩ := drainAround_ok (lb := { lb with pos := 0 }) lb.pos
+      (isBoundary_zero lb.buf) (isBoundary_len lb.buf) h (Nat.zero_le _)
+    have hd' : LB.drainAround 0 lb.len lb.pos { lb with pos := 0 } = _ := hd
+    have hne : ¬ lb.buf = [] := by simpa using hemp
+    have hd'' : LB.drainAround 0 (blen lb.buf) lb.pos { lb with pos := 0 } = _ := hd
+    simp [LB.kill, LM.bind_apply, LM.notify, LM.get, hmv, hne, hd'', LB.len] at hrun
+    obtain ⟨_, rfl, _⟩ := hrun
+    simp only at hb ⊢
+    have hbuf' : lb.buf = x ++ y ++ z := hbuf
+    have := mid_nil_of_same hbuf' hb
+    have hle := h.le_len
+    try simp only at hb ⊢
+    omega
+
+/-- **a kill that leaves the text as it was leaves the cursor where it was**, for every movement -/
+theorem kill_nothing_keeps_cursor (m : Movement) (lb l : LB) (r : Bool) (ns : List Notif)
     (h : WF lb) (hk : LB.kill S U m lb = .ok (r, l, ns)) (hb : l.buf = lb.buf) : l.pos = lb.pos := by
   cases m with
   | forwardChar n => exact kill_forwardChar_cursor S U lb l n r ns h hk
@@ -660,42 +783,25 @@ theorem kill_nothing_keeps_cursor (m : Movement) (hm : CharOrWord m) (lb l : LB)
   | beginningOfLine => exact kill_beginningOfLine_cursor S U lb l r ns h hk hb
   | endOfBuffer => exact kill_endOfBuffer_cursor S U lb l r ns h hk
   | beginningOfBuffer => exact kill_beginningOfBuffer_cursor S U lb l r ns h hk hb
-  | _ => exact hm.elim
+  | wholeBuffer => exact kill_wholeBuffer_cursor S U lb l r ns h hk hb
+  | viCharSearch n cs => exact kill_charSearch_cursor S U lb l n cs r ns h hk hb
+  | viFirstPrint => exact kill_viFirstPrint_cursor S U lb l r ns h hk hb
+  | lineUp n => exact kill_lineUp_cursor S U lb l n r ns h hk hb
+  | lineDown n => exact kill_lineDown_cursor S U lb l n r ns h hk hb
 
-/-- the one place where the cursor claim stays conditional: a kill with nothing to kill, by a
-    line-wise (`dj` `dk`) or char-search movement, in a non-empty buffer -/
-def KillCaveat (buf : Text) (pos : Nat) (m : Movement) : Prop :=
-  spanOf S U buf pos m false = .nothing ∧ ¬ CharOrWord m ∧ buf ≠ [] ∧ m ≠ .wholeBuffer
-
-/-- **Kills** (every movement, `^` included since the repair of D46): `LineBuffer::kill` returns; what is left is the text without
-    the declarative span and the cursor is at the span start; with nothing to kill the text is
-    unchanged, and the cursor too for the character / word kills and in an empty buffer. -/
+/-- **Kills** (every movement): `LineBuffer::kill` returns; what is left is the text without the
+    declarative span and the cursor is at the span start; with nothing to kill, text and cursor are
+    unchanged. -/
 theorem kill_refines (hS : S.Stable) (hnl : S.NlAlone) (mode : Mode) (lb : LB) (h : WF lb) (m : Movement) :
     ∃ r l ns, LB.kill S U m lb = .ok (r, l, ns) ∧ WF l ∧
-      ((Act.kill m).apply S U mode lb.buf lb.pos).holdsText l ∧
-      ((¬ KillCaveat S U lb.buf lb.pos m ∨ l.pos = lb.pos) →
-        ((Act.kill m).apply S U mode lb.buf lb.pos).holds l) := by
+      ((Act.kill m).apply S U mode lb.buf lb.pos).holds l := by
   obtain ⟨r, l, ns, hk, hw⟩ := C03_kill_total_wf S U m lb h
   have hc := C04_kill_is_span S U hS hnl lb l m r ns h hk
   obtain ⟨h1, h2⟩ := holds_kill_of_check S U (mode := mode) hc
-  refine ⟨r, l, ns, hk, hw, h1, fun hor => ?_⟩
+  refine ⟨r, l, ns, hk, hw, ?_⟩
   by_cases hsp : spanOf S U lb.buf lb.pos m false = .nothing
   · have hb : l.buf = lb.buf := h1 lb.buf (by simp [Act.apply, hsp])
-    refine h2 (.inr ?_)
-    rcases hor with hn | hp
-    · unfold KillCaveat at hn
-      by_cases hcw : CharOrWord m
-      · exact kill_nothing_keeps_cursor S U m hcw lb l r ns h hk hb
-      · by_cases he : lb.buf = []
-        · exact kill_refines_empty hw hb he h
-        · by_cases hwb : m = .wholeBuffer
-          · exfalso
-            subst hwb
-            have hpos : 0 < blen lb.buf := blen_pos_of_ne_nil he
-            have hemp : lb.buf.isEmpty = false := by cases hq : lb.buf <;> simp_all
-            simp [spanOf, hemp, hpos] at hsp
-          · exact absurd ⟨hsp, hcw, he, hwb⟩ hn
-    · exact hp
+    exact h2 (.inr (kill_nothing_keeps_cursor S U m lb l r ns h hk hb))
   · exact h2 (.inl hsp)
 
 /-- `change` differs from `kill` only in the input mode it asks for -/
@@ -797,28 +903,20 @@ theorem execute_move_refines (hS : S.Stable) (mode : Mode) (m : Movement) (s : E
     rw [wp_bind, wp_getPromptCol]
     exact fin (h11 n)
 
-/-- postcondition of the kill-like families: the command proceeds, the text is the documented one,
-    and so is the cursor — except under `KillCaveat` (nothing to kill, a `dj`/`dk` or char-search movement,
-    non-empty buffer), where the cursor claim is made only if the cursor did not move -/
-def RefinedKill (a : Act) (mode : Mode) (m : Movement) (s : Ed) : Status → Ed → Prop :=
-  fun st s' => st = .proceed ∧ (a.apply S U mode s.line.buf s.line.pos).holdsText s'.line ∧
-    ((¬ KillCaveat S U s.line.buf s.line.pos m ∨ s'.line.pos = s.line.pos) →
-      (a.apply S U mode s.line.buf s.line.pos).holds s'.line)
-
 theorem execute_kill_refines (hS : S.Stable) (hnl : S.NlAlone) (hnp : cfg.hinterPanicAt = none) (mode : Mode)
     (m : Movement) (s : Ed) (hwf : WF s.line) (hr : RingOK s.ring) :
-    wp (execute S U cfg (.kill m)) (RefinedKill S U (.kill m) mode m s) (fun _ _ => False) s := by
-  obtain ⟨r, l, ns, hk, _, h1, h2⟩ := kill_refines S U hS hnl mode s.line hwf m
+    wp (execute S U cfg (.kill m)) (Refined S U (.kill m) mode s) (fun _ _ => False) s := by
+  obtain ⟨r, l, ns, hk, _, h1⟩ := kill_refines S U hS hnl mode s.line hwf m
   show wp (do editKill S U cfg m; pure Status.proceed : EM Status) _ _ s
   simp only [wp_bind, wp_pure]
-  exact wp_editKill_line S U cfg m hnp hr hk fun s' hl => ⟨rfl, hl ▸ h1, hl ▸ h2⟩
+  exact wp_editKill_line S U cfg m hnp hr hk fun s' hl => ⟨rfl, hl ▸ h1⟩
 
 /-- **Change** (`Replace(m, None)`: vi `c`+motion, `s`, `S`, `C`): the same removal as the kill -/
 theorem execute_change_refines (hS : S.Stable) (hnl : S.NlAlone) (hnp : cfg.hinterPanicAt = none) (mode : Mode)
     (m : Movement) (s : Ed) (hwf : WF s.line) (hr : RingOK s.ring) :
-    wp (execute S U cfg (.replace m none)) (RefinedKill S U (.change m) mode m s) (fun _ _ => False) s := by
-  obtain ⟨r, l, ns, hk, _, h1, h2⟩ := kill_refines S U hS hnl mode s.line hwf m
-  obtain ⟨e1, e2⟩ := holds_change_iff S U mode s.line.buf s.line.pos m l
+    wp (execute S U cfg (.replace m none)) (Refined S U (.change m) mode s) (fun _ _ => False) s := by
+  obtain ⟨r, l, ns, hk, _, h1⟩ := kill_refines S U hS hnl mode s.line hwf m
+  obtain ⟨e1, _⟩ := holds_change_iff S U mode s.line.buf s.line.pos m l
   show wp (do
       editKill S U cfg m
       pure ()
@@ -827,8 +925,7 @@ theorem execute_change_refines (hS : S.Stable) (hnl : S.NlAlone) (hnp : cfg.hint
       pure Status.proceed : EM Status) _ _ s
   rw [wp_bind]
   refine wp_editKill_line S U cfg m hnp hr hk fun s' hl => ?_
-  have fin : RefinedKill S U (.change m) mode m s Status.proceed s' :=
-    ⟨rfl, hl ▸ e2.mpr h1, fun h => hl ▸ e1.mpr (h2 (hl ▸ h))⟩
+  have fin : Refined S U (.change m) mode s Status.proceed s' := ⟨rfl, hl ▸ e1.mpr h1⟩
   simp only [wp_bind, wp_pure]
   rw [wp_bind', wp_read]
   split
@@ -907,21 +1004,12 @@ def Covered : Act → Prop
   | .kill _ | .change _ => True
   | _ => False
 
-/-- the one place where the cursor claim is conditional: a kill / change with nothing to kill -/
-def CursorCaveat (a : Act) (buf : Text) (pos : Nat) : Prop :=
-  match a with
-  | .kill m | .change m => KillCaveat S U buf pos m
-  | _ => False
-
-/-- postcondition of `C01_execute_refines` -/
-def RefinedAct (a : Act) (mode : Mode) (s : Ed) : Status → Ed → Prop :=
-  fun st s' => st = .proceed ∧ (a.apply S U mode s.line.buf s.line.pos).holdsText s'.line ∧
-    ((¬ CursorCaveat S U a s.line.buf s.line.pos ∨ s'.line.pos = s.line.pos) →
-      (a.apply S U mode s.line.buf s.line.pos).holds s'.line)
+/-- postcondition of `C01_execute_refines`: the command proceeds and text and cursor are the
+    documented ones -/
+def RefinedAct (a : Act) (mode : Mode) (s : Ed) : Status → Ed → Prop := Refined S U a mode s
 
 theorem refinedAct_of_refined {a : Act} {mode : Mode} {s : Ed} {st : Status} {s' : Ed}
-    (h : Refined S U a mode s st s') : RefinedAct S U a mode s st s' :=
-  ⟨h.1, h.2.1, fun _ => h.2⟩
+    (h : Refined S U a mode s st s') : RefinedAct S U a mode s st s' := h
 
 /-- `toInsert` / `toCommand` ask for the same text and cursor as the motion they contain -/
 theorem holds_toInsert_iff (mode : Mode) (buf : Text) (pos : Nat) (m : Movement) (l : LB) :
@@ -955,42 +1043,34 @@ theorem execute_refines (hS : S.Stable) (hnl : S.NlAlone) (hnp : cfg.hinterPanic
     exact wp_mono (execute_move_refines S U cfg hS mode m s hwf hcov) (fun _ _ h => refinedAct_of_refined S U h) (fun _ _ h => h)
   | kill m =>
     cases hc
-    refine wp_mono (execute_kill_refines S U cfg hS hnl hnp mode m s hwf hr) (fun _ s' h => ?_) (fun _ _ h => h)
-    refine ⟨h.1, h.2.1, fun hor => h.2.2 ?_⟩
-    rcases hor with hn | hp
-    · exact .inl hn
-    · exact .inr hp
+    exact execute_kill_refines S U cfg hS hnl hnp mode m s hwf hr
   | change m =>
     cases hc
-    refine wp_mono (execute_change_refines S U cfg hS hnl hnp mode m s hwf hr) (fun _ s' h => ?_) (fun _ _ h => h)
-    refine ⟨h.1, h.2.1, fun hor => h.2.2 ?_⟩
-    rcases hor with hn | hp
-    · exact .inl hn
-    · exact .inr hp
+    exact execute_change_refines S U cfg hS hnl hnp mode m s hwf hr
   | yankOnly m =>
     cases hc
     refine wp_mono (execute_yank_refines S U cfg mode m s hwf hr) (fun _ s' h => ?_) (fun _ _ h => h)
-    exact ⟨h.1, h.2.2.1, fun _ => h.2.2⟩
+    exact ⟨h.1, h.2.2⟩
   | toInsert pre =>
     cases pre with
     | none =>
       cases hc
       show wp (pure Status.proceed) _ _ s
-      exact ⟨rfl, by simp [Act.apply, Want.holdsText], fun _ => by simp [Act.apply, Want.holds]⟩
+      exact ⟨rfl, by simp [Act.apply, Want.holds]⟩
     | some m =>
       cases hc
       refine wp_mono (execute_move_refines S U cfg hS mode m s hwf hcov) (fun _ s' h => ?_) (fun _ _ h => h)
       have hh := (holds_toInsert_iff S U mode s.line.buf s.line.pos m s'.line).mpr h.2
-      exact ⟨h.1, hh.1, fun _ => hh⟩
+      exact ⟨h.1, hh⟩
   | toCommand =>
     cases hc
     refine wp_mono (execute_move_refines S U cfg hS mode (.backwardChar 1) s hwf (by simp)) (fun _ s' h => ?_) (fun _ _ h => h)
     have hh := holds_toCommand_of_move S U mode s.line.buf s.line.pos s'.line h.2
-    exact ⟨h.1, hh.1, fun _ => hh⟩
+    exact ⟨h.1, hh⟩
   | nothing =>
     cases hc
     show wp (pure Status.proceed) _ _ s
-    exact ⟨rfl, by simp [Act.apply, Want.holdsText], fun _ => by simp [Act.apply, Want.holds]⟩
+    exact ⟨rfl, by simp [Act.apply, Want.holds]⟩
   | editWord w => exact hcov.elim
   | transposeChars => exact hcov.elim
   | replaceChar n ch => exact hcov.elim
@@ -1001,7 +1081,7 @@ theorem execute_refines (hS : S.Stable) (hnl : S.NlAlone) (hnp : cfg.hinterPanic
 
 theorem refinedAct_congr (a : Act) (mode : Mode) {s1 s : Ed} (h : s1.line = s.line) :
     RefinedAct S U a mode s1 = RefinedAct S U a mode s := by
-  unfold RefinedAct; rw [h]
+  unfold RefinedAct Refined; rw [h]
 
 /-- from the keymap's answer to the effect: if the keymap returns the command `a` denotes and keeps
     line and kill ring, running keymap + `execute` has the documented effect -/
